@@ -64,9 +64,13 @@ type c20tree struct {
 	files []string
 }
 
-func genTree(r *h.Rand) c20tree {
+func genTree(r *h.Rand, noDotDirs bool) c20tree {
 	var t c20tree
 	dnames := []string{"src", "docs", "sub", ".hidden"}
+	if noDotDirs {
+		// event histories watch files only: a directory called ".hidden" would match `.*` and `*.*`
+		dnames = dnames[:3]
+	}
 	fnames := []string{"a.txt", "b.txt", "c.log", "main.go", "x1.md", ".dotfile", "note", "ab.txt"}
 	t.dirs = []string{}
 	var all []string
@@ -229,7 +233,7 @@ func runC20(c *h.Ctx, idx int, events bool) {
 	dir := caseDir(c, fmt.Sprintf("c20.%v.%d", events, idx))
 	defer os.RemoveAll(dir)
 	real, _ := filepath.EvalSymlinks(dir)
-	tree := genTree(r)
+	tree := genTree(r, events)
 	outer := real // harness files (config, logs, $HOME) live here, outside the watched tree
 	real = real + "/tree"
 	os.MkdirAll(real, 0o755)
@@ -241,11 +245,11 @@ func runC20(c *h.Ctx, idx int, events bool) {
 	for i := 0; i < r.Intn(3); i++ {
 		exc = append(exc, genPattern(r, tree, events))
 	}
-	sel := tree.selected(inc, exc, events)
+	sel := tree.selected(inc, exc, false)
 	if events && len(sel) == 0 {
 		// make sure there is something to operate on
 		inc = append(inc, "**/*.txt")
-		sel = tree.selected(inc, exc, events)
+		sel = tree.selected(inc, exc, false)
 	}
 	var subs []string
 	mask := r.Intn(32)
